@@ -50,7 +50,14 @@ def table():
                     break
             if first:
                 break
-        caught = all(c["caught"] for c in checks.values()) and bool(checks)
+        own = meta.get("property")
+        others = [k for k, c in checks.items() if c["caught"] and k != own]
+        if own in checks and checks[own]["caught"]:
+            caught = "yes"
+        elif others:
+            caught = "by " + ", ".join(sorted(others))
+        else:
+            caught = "**no**"
         note = meta.get("strengthened", "")
         if note:
             note = "strengthened — " + note
@@ -58,7 +65,7 @@ def table():
         if len(summary) > 150:
             summary = summary[:147] + "..."
         rows.append("| %s | %s | %s | %s | %s |" % (
-            name, summary, "yes" if caught else "**no**", first, note))
+            name, summary, caught, first, note))
     print("| change | what it does | caught | first reported | note |\n"
           "|---|---|---|---|---|")
     print("\n".join(rows))
